@@ -85,6 +85,7 @@ Inductive hop :=
 | HNEW (i : nat) (kind : Z) (p : Z)          (* kind: 0 F, 1 B, 2 I1, 3 R1, 4 IA1 *)
 | HNX (id : nat)
 | HRUN (i : nat) (kind : Z) (k : Z)          (* kind: 0 All, 1 Values, 2 Backward *)
+| HRR (i : nat) (kind : Z) (k1 k2 : Z)       (* the SAME push iterator value run twice: stopped after k1 items, then run again up to k2 *)
 | HSTR (i : nat) | HND (i : nat).
 
 (* a pull iterator at the level of the specification: next position, direction, fixed bound, positions reported? *)
@@ -98,6 +99,18 @@ Definition describe (ver : Z) (v : val) : list Z :=
 
 Definition flat (l : list (Z * Z)) (with_pos : bool) : list Z :=
   flat_map (fun pv => [if with_pos then fst pv else -2; snd pv]) l.
+
+(* one run of a push iterator of a view (kind 0 All, 1 Values, 2 Backward), stopped after k items (k < 0: all) *)
+Definition run_answer (ver : Z) (d : dsrc) (v : val) (kind k : Z) : list Z :=
+  let n := if k <? 0 then match span d v with Some s => s | None => O end else Z.to_nat k in
+  if kind =? 2 then
+    if (ver =? 3) && negb (is_finite_type v) then [NA]
+    else match eff_hi d v with
+         | Some h => let l := bwd_list d (eff_lo v) (h - 1) n in Z.of_nat (length l) :: flat l true
+         | None => [NA]
+         end
+  else let l := fwd_list d (eff_hi d v) (eff_lo v) n in
+       Z.of_nat (length l) :: flat l (kind =? 0).
 
 Definition step (ver : Z) (d : dsrc) (st : hstate) (o : hop) : hstate * list Z :=
   let vs := h_views st in
@@ -151,17 +164,8 @@ Definition step (ver : Z) (d : dsrc) (st : hstate) (o : hop) : hstate * list Z :
       | None => (st, [-1; -1])
       end
     end
-  | HRUN i kind k =>
-    let v := view i in
-    let n := if k <? 0 then match span d v with Some s => s | None => O end else Z.to_nat k in
-    if kind =? 2 then
-      if (ver =? 3) && negb (is_finite_type v) then (st, [NA])
-      else match eff_hi d v with
-           | Some h => let l := bwd_list d (eff_lo v) (h - 1) n in (st, Z.of_nat (length l) :: flat l true)
-           | None => (st, [NA])
-           end
-    else let l := fwd_list d (eff_hi d v) (eff_lo v) n in
-         (st, Z.of_nat (length l) :: flat l (kind =? 0))
+  | HRUN i kind k => (st, run_answer ver d (view i) kind k)
+  | HRR i kind k1 k2 => (st, run_answer ver d (view i) kind k1 ++ run_answer ver d (view i) kind k2)
   | HSTR i =>
     let v := view i in
     if (ver =? 3) && negb (is_finite_type v) then (st, [NA])
